@@ -478,6 +478,8 @@ theorem C08_returns_least (σ : Sys) (h : Reach σ) (i : Nat) (t : RThread) (c :
     | restart => simp at hret
     | panic => simp at hret
 
+-- AUDIT: not vacuous (instance in `Ex` below); `h` and `hi` are unused — the fact holds for every stream
+-- and reader, reachable or not.
 set_option linter.unusedVariables false in
 /-- once cancelled and woken a reader does not block again -/
 theorem C08_cancelled_returns (σ : Sys) (h : Reach σ) (i : Nat) (t : RThread) (c : Nat)
@@ -491,6 +493,9 @@ theorem C08_cancelled_returns (σ : Sys) (h : Reach σ) (i : Nat) (t : RThread) 
   obtain ⟨os1, r⟩ := p
   cases r <;> simp [hcan]
 
+-- AUDIT: not vacuous (instance in `Ex` below), but `σ`, `msgs`, `os'` and `ht` are unused: the statement
+-- is a fact about `signal` alone; its link to `Add`/`Interrupt` is that `Step.add`/`Step.interrupt` map
+-- `signal` over the readers (see the last example of `Ex`, which takes the `Add` step of the system).
 set_option linter.unusedVariables false in
 /-- `Add`/`Interrupt` make every waiter runnable -/
 theorem C08_wakes_on_add (σ : Sys) (msgs : List Msg) (os' : OS) (t : RThread) (ht : t ∈ σ.rs)
@@ -539,14 +544,148 @@ of the transition system above are these lock regions (read off the code by hand
 structure of the file — a new fast path outside a region, a region split or merged — changes this table and
 with it the justification of the model's step boundaries. -/
 theorem C08_lock_regions : Robust.Gen.Locks.streamRegions = [
-  ("internal/outputstream:OutputStream.Add", ["OutputStream.messagesMu.Lock", "defer OutputStream.messagesMu.Unlock", "OutputStream.cacheMu.Lock", "OutputStream.cacheMu.Unlock"]),
-  ("internal/outputstream:OutputStream.Delete", ["OutputStream.messagesMu.Lock", "defer OutputStream.messagesMu.Unlock", "OutputStream.cacheMu.Lock", "OutputStream.cacheMu.Unlock", "OutputStream.cacheMu.Lock", "OutputStream.cacheMu.Unlock"]),
+  ("internal/outputstream:OutputStream.Add", ["OutputStream.messagesMu.Lock", "defer OutputStream.messagesMu.Unlock"]),
+  ("internal/outputstream:OutputStream.Delete", ["OutputStream.messagesMu.Lock", "defer OutputStream.messagesMu.Unlock"]),
   ("internal/outputstream:OutputStream.Get", ["OutputStream.messagesMu.RLock", "defer OutputStream.messagesMu.RUnlock"]),
   ("internal/outputstream:OutputStream.GetNext", ["OutputStream.messagesMu.RLock", "OutputStream.messagesMu.RUnlock", "OutputStream.messagesMu.RUnlock", "OutputStream.messagesMu.RUnlock", "OutputStream.messagesMu.Lock", "OutputStream.messagesMu.Unlock", "OutputStream.messagesMu.Unlock", "OutputStream.messagesMu.Unlock", "OutputStream.messagesMu.Unlock"]),
   ("internal/outputstream:OutputStream.InterruptGetNext", ["OutputStream.messagesMu.Lock", "defer OutputStream.messagesMu.Unlock"]),
   ("internal/outputstream:OutputStream.LastSeen", ["OutputStream.messagesMu.RLock", "defer OutputStream.messagesMu.RUnlock"]),
-  ("internal/outputstream:OutputStream.getUnlocked", ["OutputStream.cacheMu.RLock", "OutputStream.cacheMu.RUnlock", "OutputStream.cacheMu.Lock", "OutputStream.cacheMu.Unlock"]),
   ("internal/outputstream:OutputStream.reset", ["OutputStream.messagesMu.Lock", "defer OutputStream.messagesMu.Unlock"])
 ] := by decide
+
+/-! ## non-vacuity
+
+Every hypothesis set of the theorems above is instantiated on the populated streams of the regression
+schedule (three batches, a deleted middle batch, a warm cache); the invariant of each stream is obtained
+from `C08_reach_inv` along the run that produces it, not postulated. -/
+namespace Ex
+open Regression
+
+theorem r6 : Reach ⟨os6, [t0]⟩ :=
+  Reach.step _ _ r5 (Step.reader ⟨os5, [t1]⟩ 0 t1 (some 0) rfl rfl)
+
+theorem inv4 : Inv os4 := (C08_reach_inv _ r4).1
+theorem inv5 : Inv os5 := (C08_reach_inv _ r5).1
+theorem inv6 : Inv os6 := (C08_reach_inv _ r6).1
+
+/-! ### the sequential operations -/
+
+/-- `os4` after `Add 9` -/
+def os9 : OS := ⟨[(0, ⟨msg 0, 5⟩), (5, ⟨msg 5, 7⟩), (7, ⟨msg 7, 9⟩), (9, ⟨msg 9, noNext⟩)], ⟨msg 9, noNext⟩, []⟩
+
+theorem addOk9 : AddOk os4 (msg 9) := ⟨_, rfl, by decide, by decide⟩
+
+example : Inv os9 := C08_inv_add os4 os9 (msg 9) inv4 addOk9 rfl
+
+/-- `Add` on the stream with a deleted middle batch and a warm cache (only the cached copy of the
+last batch, 7, would be invalidated; the cached batch 0 survives) -/
+example : Inv ((os6.add (msg 9)).getD os6) ∧ ((os6.add (msg 9)).getD os6).cache = [(0, ⟨msg 0, 5⟩)] :=
+  ⟨C08_inv_add os6 _ (msg 9) inv6 ⟨_, rfl, by decide, by decide⟩ rfl, rfl⟩
+
+/-- plain deletion of the middle batch -/
+example : Inv os5 ∧ 0 ∈ SMap.keys os5.db := C08_inv_delete os4 os5 5 inv4 (by decide) (by decide) rfl
+
+/-- deletion of the *last* batch: the predecessor is re-pointed and becomes `last` -/
+def os4t : OS := ⟨[(0, ⟨msg 0, 5⟩), (5, ⟨msg 5, noNext⟩)], ⟨msg 5, noNext⟩, []⟩
+example : Inv os4t ∧ 0 ∈ SMap.keys os4t.db := C08_inv_delete os4 os4t 7 inv4 (by decide) (by decide) rfl
+
+/-- deletion of the last batch with a warm cache holding the predecessor: the stale cached copy
+(`next = 5`) is dropped -/
+def os6t : OS := ⟨[(0, ⟨msg 0, noNext⟩)], ⟨msg 0, noNext⟩, []⟩
+example : Inv os6t ∧ 0 ∈ SMap.keys os6t.db := C08_inv_delete os6 os6t 7 inv6 (by decide) (by decide) rfl
+
+example : Inv (os5.get 7).1 ∧ (os5.get 7).1.db = os5.db := C08_inv_get os5 7 inv5
+/-- … and that `Get` did populate the cache -/
+example : (os5.get 7).1.cache = [(7, ⟨msg 7, noNext⟩)] := rfl
+
+example : (os4.get 5).2 = some (msg 5) := (C08_get os4 5 inv4).trans rfl
+example : (os5.get 5).2 = none := (C08_get os5 5 inv5).trans rfl
+/-- through the cache -/
+example : (os6.get 0).2 = some (msg 0) := (C08_get os6 0 inv6).trans rfl
+
+example : SMap.get (contents os9) 9 = some (msg 9) :=
+  (C08_contents_add os4 os9 (msg 9) _ inv4 addOk9 rfl rfl 9).trans rfl
+example : SMap.get (contents os9) 7 = some (msg 7) :=
+  (C08_contents_add os4 os9 (msg 9) _ inv4 addOk9 rfl rfl 7).trans rfl
+
+example : SMap.get (contents os5) 5 = none :=
+  (C08_contents_delete os4 os5 5 inv4 (by decide) (by decide) rfl 5).trans rfl
+example : SMap.get (contents os4t) 5 = some (msg 5) :=
+  (C08_contents_delete os4 os4t 7 inv4 (by decide) (by decide) rfl 5).trans rfl
+
+example : ∃ s', os4.delete 7 = some s' := C08_delete_no_panic os4 7 inv4 (by decide) (by decide)
+/-- deleting an id that is not stored is fine too -/
+example : ∃ s', os5.delete 5 = some s' := C08_delete_no_panic os5 5 inv5 (by decide) (by decide)
+
+/-! ### the two phases of `GetNext` -/
+
+/-- phase 1 on the stream whose batch 0 points to the deleted batch 5: range search finds batch 7 -/
+example : leastAbove os5 0 (msg 7) := (C08_p1 os5 0 inv5).2.2
+/-- phase 1 through the chain -/
+example : leastAbove os4 5 (msg 7) := (C08_p1 os4 5 inv4).2.2
+/-- phase 1 behind the last batch: park -/
+example : 7 ∈ SMap.keys os4.db ∧ 7 ≤ 7 ∧ noneAbove os4 7 := (C08_p1 os4 7 inv4).2.2
+/-- phase 1 for an id that is not stored and above everything: park behind the greatest key -/
+example : 7 ∈ SMap.keys os5.db ∧ 7 ≤ 8 ∧ noneAbove os5 8 := (C08_p1 os5 8 inv5).2.2
+
+/-- wait-loop stretch: the chain 0 → 5 → 7 is followed, then the reader blocks behind 7 -/
+example : (os4.getNextP2 7 (os4.db.length + 1) 0).2 = .wait 7 := rfl
+example : 7 ∈ SMap.keys os4.db ∧ 7 ≤ 7 ∧ noneAbove os4 7 := (C08_p2 os4 7 0 inv4 (by decide)).2.2
+/-- … returns the first batch above `x` -/
+example : leastAbove os4 5 (msg 7) := (C08_p2 os4 5 0 inv4 (by decide)).2.2
+/-- … starts over at a dangling link -/
+example : 0 ∉ SMap.keys os5.db ∨ ∃ c, 0 ≤ c ∧ c ≤ 0 ∧ Dangling os5 c := (C08_p2 os5 0 0 inv5 (by decide)).2.2
+/-- … starts over when the batch waited behind is gone -/
+example : 5 ∉ SMap.keys os5.db ∨ ∃ c, 5 ≤ c ∧ c ≤ 6 ∧ Dangling os5 c := (C08_p2 os5 6 5 inv5 (by decide)).2.2
+
+example : ((os4.getNextP1 7).1.getNextP2 7 ((os4.getNextP1 7).1.db.length + 1) 7).2 = .wait 7 :=
+  C08_p1_then_p2_waits os4 7 7 inv4 rfl
+example : (∃ c, ((os5.getNextP1 9).1.getNextP2 9 ((os5.getNextP1 9).1.db.length + 1) 7).2 = .wait c) ∨
+    (∃ m, ((os5.getNextP1 9).1.getNextP2 9 ((os5.getNextP1 9).1.db.length + 1) 7).2 = .ret m) :=
+  C08_p1_then_p2_no_restart os5 9 7 inv5 rfl
+
+/-! ### the concurrent system: two readers, one of them blocked, then cancelled and woken -/
+
+def u0 : RThread := ⟨7, false, .ready none⟩
+def u1 : RThread := ⟨7, false, .ready (some 7)⟩
+def uW : RThread := ⟨7, false, .waiting 7⟩
+def uC : RThread := ⟨7, true, .ready (some 7)⟩
+/-- `os4` with batch 7 cached by the second reader's phase 1 -/
+def os4c : OS := { os4 with cache := [(7, ⟨msg 7, noNext⟩)] }
+
+theorem q1 : Reach ⟨os4, [t1, u0]⟩ := Reach.step _ _ r4 (Step.call ⟨os4, [t1]⟩ 7)
+theorem q2 : Reach ⟨os4c, [t1, u1]⟩ := Reach.step _ _ q1 (Step.reader ⟨os4, [t1, u0]⟩ 1 u0 none rfl rfl)
+/-- the second reader blocks behind batch 7 while the first one is still runnable -/
+theorem qW : Reach ⟨os4c, [t1, uW]⟩ := Reach.step _ _ q2 (Step.reader ⟨os4c, [t1, u1]⟩ 1 u1 (some 7) rfl rfl)
+theorem q4 : Reach ⟨os4c, [t1, { uW with cancelled := true }]⟩ :=
+  Reach.step _ _ qW (Step.cancel ⟨os4c, [t1, uW]⟩ 1 uW rfl)
+theorem qC : Reach ⟨os4c, [t1, uC]⟩ :=
+  Reach.step _ _ q4 (Step.interrupt ⟨os4c, [t1, { uW with cancelled := true }]⟩)
+
+example : SysInv ⟨os4c, [t1, uW]⟩ := C08_reach_inv _ qW
+example : SysInv ⟨(readerStep os6 t0).1, [(readerStep os6 t0).2]⟩ := C08_reach_inv _ r7
+
+example : noneAbove os4c 7 := C08_no_lost_wakeup _ qW uW (by decide) 7 rfl
+example : uW.pc ≠ .crashed := C08_never_panics _ qW uW (by decide)
+example : t1.pc ≠ .crashed := C08_never_panics _ qW t1 (by decide)
+
+/-- a return out of phase 1 (after the restart of the regression schedule) … -/
+example : leastAbove os6 0 (msg 7) := C08_returns_least _ r6 0 t0 none rfl rfl (msg 7) rfl
+/-- … and out of the wait loop (the first reader, woken by the two `Add`s, follows 0 → 5) -/
+example : leastAbove os4c 0 (msg 5) := C08_returns_least _ qW 0 t1 (some 0) rfl rfl (msg 5) rfl
+
+/-- the cancelled, woken reader returns `[]` instead of blocking again -/
+example : ∀ c', (readerStep os4c uC).2.pc ≠ .waiting c' := C08_cancelled_returns _ qC 1 uC 7 rfl rfl rfl
+example : (readerStep os4c uC).2.pc = .returned none := rfl
+/-- the same reader, not cancelled, does block again: the hypothesis `cancelled = true` matters -/
+example : (readerStep os4c u1).2.pc = .waiting 7 := rfl
+
+example : (signal uW).pc = .ready (some 7) :=
+  C08_wakes_on_add ⟨os4c, [t1, uW]⟩ (msg 9) os9 uW (by decide) 7 rfl
+/-- … and this is what the `Add` step of the system does with the blocked reader -/
+example : Reach ⟨{ os9 with cache := [] }, [t1, u1]⟩ :=
+  Reach.step _ _ qW (Step.add ⟨os4c, [t1, uW]⟩ (msg 9) _ ⟨_, rfl, by decide, by decide⟩ rfl)
+
+end Ex
 
 end Robust.Props.C08
